@@ -71,7 +71,21 @@ def check_stream(notes, cols, what):
     """notes: real Note objects, position sorted"""
     from simfile.notes import NoteData
 
+    from simfile.notes import Note, NoteType
+    from simfile.timing import Beat
+
     exp = [fields(n) for n in notes]
+    # process history that must not matter: the same beats built from floats elsewhere (a float snaps to the tick grid,
+    # the exact beat does not), and an earlier call that was rejected half-way through a row (column out of range)
+    for n in notes[:8]:
+        Beat(float(n.beat))
+        Beat(float(n.beat % 4))
+    if notes:
+        bad = [Note(beat=notes[0].beat, column=0, note_type=NoteType.HOLD_HEAD), Note(beat=notes[0].beat, column=cols, note_type=NoteType.TAP)]
+        try:
+            NoteData.from_notes(bad, cols)
+        except Exception:  # noqa - an out-of-range column is outside the domain: whatever happens, later calls are unaffected
+            pass
     nd = NoteData.from_notes(iter(notes), cols)
     next(iter(nd), None)  # an abandoned iteration must not disturb later ones
     text = str(nd)
